@@ -20,6 +20,8 @@ PID = "C01"
 def run(chk, cases, timeout):
     wd = tlc.workdir("c01")
     try:
+        for c in cases:
+            c["data"] = True          # record the data of every step as well (diagnostic pass below)
         traces = sc.record(chk, cases, timeout)
         for t in traces:
             if t["ctor_error"]:
@@ -48,6 +50,7 @@ def run(chk, cases, timeout):
                 else:
                     # outcome / protocol problems are C02's subject; counted here
                     chk.note("traces_rejected_for_other_reasons")
+        sc.search_conformance(chk, wd, traces)
         for t in traces[:: max(1, len(traces) // 4)][:4]:
             chk.sample({"constraint": t["case"]["text"], "grammar": t["case"]["grammar"], "settings": t["case"]["settings"],
                         "outcomes": t["solutions"], "events": len(t["events"])})
@@ -77,3 +80,55 @@ def replay(path):
     cases = [dict(c["case"], id=i + 1) for i, c in enumerate(rec["cases"])]
     run(chk, cases, 120)
     return chk.finish()
+
+
+def selftest():
+    """the data refinement (spec/SolverData.tla) is bound to what was recorded: corrupted data of a real run must
+    break the corresponding rule, the original must break none"""
+    import copy
+    from harness import catalogue, project as pj
+    from harness.formulas import EX, SMT
+    from harness.smt import A, S, V
+    chk = Check(PID, "quick")
+    g = pj.grammar_to_json(catalogue.ASSGN2)
+    base = {"grammar": "ASSGN2", "g": g, "fam": "selftest", "text": 'exists <var> v in start: (= v "a")', "data": True,
+            "phi": EX("<var>", "v", SMT(A("=", V("v"), S("a")))), "settings": {"max_number_free_instantiations": 3, "enforce_unique_trees_in_queue": True}, "calls": 4, "seed": 1, "id": 1}
+    wd = tlc.workdir("c01self")
+    try:
+        t = sc.record(chk, [base], 120)[0]
+        ev = t["data"]["events"]
+        enq = [i for i, e in enumerate(ev) if e["ev"] == "Admit" and e["kind"] == "Enqueue"]
+        pops = [i for i, e in enumerate(ev) if e["ev"] == "Pop" and i > 0 and len(ev[i - 1]["q"]) >= 2]
+        assert enq and pops, [e["ev"] for e in ev]
+        variants, expect = [t], {1: None}
+
+        def mutate(rule, fn):
+            v = copy.deepcopy(t)
+            v["id"] = v["data"]["id"] = len(variants) + 1
+            fn(v["data"]["events"])
+            variants.append(v)
+            expect[v["id"]] = rule
+
+        def worst_first(e):
+            # the state popped at pops[0] gets the worst rank in the snapshot before it
+            q = e[pops[0] - 1]["q"]
+            for x in q:
+                x["r"] = 99 if x["s"] == e[pops[0]]["sid"] else 0
+        mutate("pop-not-cheapest", worst_first)
+        mutate("enqueued-not-a-derivation-tree", lambda e: e[enq[0]]["tree"]["ch"].append(dict(e[enq[0]]["tree"], ch=[], id=777)))
+        mutate("enqueue-queue-mismatch", lambda e: e[enq[0]]["q"].pop())
+        mutate("pop-of-a-state-that-is-not-queued", lambda e: e[pops[0]].__setitem__("sid", 4242))
+        mutate("enqueued-although-tree-in-hash-set", lambda e: e.insert(enq[0] + 1, copy.deepcopy(dict(e[enq[0]], sid=4243, q=e[enq[0]]["q"] + [{"s": 4243, "r": 0}]))))
+        sc.search_conformance(chk, wd, variants)
+        rep = chk.cov["search_conformance"]
+        ok = True
+        # per-case verdicts are aggregated: every expected rule must have been reported exactly once, and no other
+        wanted = sorted(r for r in expect.values() if r)
+        got = sorted(r for r, n in rep["broken_rules"].items() for _ in range(n))
+        print("selftest SolverData: expected %s" % wanted)
+        print("selftest SolverData: reported %s" % got)
+        # (a corrupted step may break further rules at the following step: only the original must break none)
+        ok = all(r in got for r in wanted) and rep["cases_with_broken_rules"] == len(wanted)
+        return 0 if ok else 2
+    finally:
+        shutil.rmtree(wd, ignore_errors=True)
